@@ -21,7 +21,7 @@ import time
 
 from .. import core
 
-GROUP = {"Qarray": "C17", "Qloop": "C12", "Int60": "C03", "Hazard": "C15", "Mpool": "C14"}
+GROUP = {"Qarray": "C17", "Qloop": "C12", "Int60": "C03", "Hazard": "C15", "Mpool": "C14", "Dict": "C16", "Ident": "C09", "Swsr": "C15"}
 _done = {}
 
 
@@ -257,7 +257,100 @@ def diff_mpool(ctx, rng):
     return None
 
 
-DIFF = {"Qarray": diff_qarray, "Qloop": diff_qloop, "Int60": diff_int60, "Hazard": diff_hazard, "Mpool": diff_mpool}
+def diff_dict(ctx, rng):
+    exe = ctx.link("gen_dict", ["gen_dict.c"], exclude=["ds/dictionary/dictionary_shavit.c"], cflags=["-DGEN_MAIN"])
+    M = 2 ** 64
+    xs = list(range(0, 256)) + [2 ** k for k in range(64)] + [2 ** k - 1 for k in range(1, 65)] + [rng.next() for _ in range(400)]
+    bs = [(rng.next(), rng.choice([1, 2, 4, 8, 16, 1024, 3, 2 ** rng.range(0, 20)])) for _ in range(300)]
+    lines = ["R %d" % x for x in xs] + ["K %d" % (x % 2 ** 63) for x in xs] + ["D %d" % x for x in xs] + ["P %d" % x for x in xs] + \
+            ["B %d %d" % b for b in bs]
+    rc, out, err = core.run_lines(exe, lines + ["Q"], timeout=120)
+    if rc != 0 or len(out) != len(lines):
+        return {"error": "gen_dict harness failed rc=%s %s" % (rc, err[-200:])}
+    imp = "From QV Require Import Dict.Model."
+    L = "; ".join(str(x) for x in xs)
+    r, m1 = coq_eval(ctx, imp, "map reverse_byte [%s]%%N" % L)
+    k, m2 = coq_eval(ctx, imp, "map so_regularkey [%s]%%N" % "; ".join(str(x % 2 ** 63) for x in xs))
+    d, m3 = coq_eval(ctx, imp, "map so_dummykey [%s]%%N" % L)
+    g, m4 = coq_eval(ctx, imp, "map get_parent [%s]%%N" % L)
+    b, m5 = coq_eval(ctx, imp, "(flat_map (fun t => [N.land (fst t) (N.ones 63); N.land (fst t) (N.ones 63) mod snd t]) [%s])%%N" %
+                     "; ".join("(%d, %d)" % t for t in bs))
+    if None in (r, k, d, g, b):
+        return {"error": "model evaluation failed: " + (m1 or m2 or m3 or m4 or m5)}
+    model = ["r %d" % v for v in r] + ["k %d" % v for v in k] + ["d %d" % v for v in d] + ["p %d" % v for v in g] + \
+            ["b %d %d" % (b[2 * i], b[2 * i + 1]) for i in range(len(bs))]
+    names = {"R": "REVERSE_BYTE(x)", "K": "so_regularkey(key)", "D": "so_dummykey(key)", "P": "GET_PARENT(bucket)",
+             "B": "HASH_KEY + bucket index of qt_hash_put: hash size; result = lkey bucket"}
+    for ln, o, m in zip(lines, out, model):
+        if o != m:
+            return {"kernel": names[ln[0]], "input": ln, "c_result": o, "model_result": m}
+    return None
+
+
+def diff_ident(ctx, rng):
+    exe = ctx.link("gen_ident", ["gen_ident.c"], exclude=["qthread.c"])
+    M32, M64 = 2 ** 32, 2 ** 64
+    cs = [0, 1, 2, 7, M32 - 2, M32 - 1, M32, M32 + 1, 2 * M32 - 1, 2 * M32, 5 * M32 - 1, 5 * M32, M64 - 2, M64 - 1,
+          M64 - M32 - 1, M64 - M32] + [rng.range(0, 3) * M32 + rng.choice([-2, -1, 0, 1, 5, 1000]) for _ in range(60)]
+    cs = [c % M64 for c in cs]
+    lines = ["I %d" % c for c in cs]
+    rc, out, err = core.run_lines(exe, lines + ["Q"], timeout=120, env=core.qenv(1, 1, stack=65536))
+    if rc != 0 or len(out) != len(lines):
+        return {"error": "gen_ident harness failed rc=%s %s" % (rc, err[-200:])}
+    v, msg = coq_eval(ctx, "From QV Require Import Kernel.Ident.",
+                      "(flat_map (fun c => match qthread_id 0 c with (i, f, c1) => [i; fst (fst (qthread_id f c1)); c1] end) [%s])%%N" %
+                      "; ".join(str(c) for c in cs))
+    if v is None:
+        return {"error": "model evaluation failed: " + msg}
+    for k, (ln, o) in enumerate(zip(lines, out)):
+        m = "i %d %d %d" % tuple(v[3 * k: 3 * k + 3])
+        if o != m:
+            return {"kernel": "qthread_id() of a fresh task after qlib->max_thread_id was set to the input; result = id, id of a second call, "
+                              "counter afterwards", "input": ln, "c_result": o, "model_result": m}
+    return None
+
+
+def diff_swsr(ctx, rng):
+    exe = ctx.link("gen_swsr", ["gen_swsr.c"], exclude=["ds/qswsrqueue.c"])
+    es = [0, 1, 7, 8, 9, 63, 64, 65, 127, 128, 129, 1000, 4096, 4097, 2 ** 32 - 64, 2 ** 32 - 63, 2 ** 32, 2 ** 33] + \
+         [rng.range(0, 3000) for _ in range(150)]
+    xs = []
+    for _ in range(200):
+        e = rng.choice([1, 8, 64, 65, 100, 128, 200])
+        size = max(64, -(-max(e, 8) // 64) * 64)
+        n = rng.choice([0, 1, 2, size - 2, size - 1, size, size + 3, rng.below(size + 5)])
+        k = rng.below(min(n, size - 1) + 2)
+        xs.append((e, n, k))
+    lines = ["C %d" % e for e in es] + ["X %d %d %d" % x for x in xs]
+    rc, out, err = core.run_lines(exe, lines + ["Q"], timeout=120)
+    if rc != 0 or len(out) != len(lines):
+        k = min(len(out), len(lines) - 1)
+        return {"kernel": "qswsrqueue", "input": lines[k], "c_result": "crashed (rc=%s)" % rc, "model_result": "defined"}
+    imp = "From QV Require Import CQueues.Swsr."
+    cv, m1 = coq_eval(ctx, imp, "(map (fun e => match create_size 64 8 e with Some s => s | None => 0 end) [%s])%%N" % "; ".join(map(str, es)))
+    # sequential ring arithmetic from the model's index formulas: tail advances by (t+1) mod size while (t+1) mod size <> head
+    xv, m2 = coq_eval(ctx, imp,
+                      "(flat_map (fun t => match t with (e, n, k) => match create_size 64 8 e with None => [0; 0; 0; 0; 0] | Some s => "
+                      "let enq := fun st => let nt := (fst st + 1) mod s in if nt =? 0 then (fst st, 1) else (nt, 0) in "
+                      "let a := N.iter n enq (0, 0) in "
+                      "let deq := fun h => if h =? fst a then h else (h + 1) mod s in "
+                      "let h := N.iter k deq 0 in [s; fst a; h; (if h =? fst a then 1 else 0); snd a] end end) [%s])%%N" %
+                      "; ".join("(%d, %d, %d)" % x for x in xs))
+    if cv is None or xv is None:
+        return {"error": "model evaluation failed: " + (m1 or m2)}
+    for ln, o, v in zip(lines[:len(es)], out[:len(es)], cv):
+        m = "c NULL" if v == 0 else "c %d" % v
+        if o != m and o != "c skipped":
+            return {"kernel": "qswsrqueue_create(elements): q->size", "input": ln, "c_result": o, "model_result": m}
+    for i, (ln, o) in enumerate(zip(lines[len(es):], out[len(es):])):
+        m = "x %d %d %d %d %d" % tuple(xv[5 * i: 5 * i + 5])
+        if o != m:
+            return {"kernel": "fresh qswsrqueue of `elements`, n enqueues then k dequeues: size tail head empty rc-of-last-enqueue",
+                    "input": ln, "c_result": o, "model_result": m}
+    return None
+
+
+DIFF = {"Swsr": diff_swsr, "Ident": diff_ident, "Dict": diff_dict, "Qarray": diff_qarray, "Qloop": diff_qloop, "Int60": diff_int60, "Hazard": diff_hazard, "Mpool": diff_mpool}
 
 
 # ---------------------------------------------------------------------------------------------- entry point
